@@ -91,6 +91,12 @@ EXPLAIN_CONTENT = {
                  'goes to another state than the one that has just declined: an inner state is skipped, or an outer state answers an event that an inner one would have handled'),
     'O9-init': ('INIT is sent to a state that is not known to be the current target (the state entered last): the initial transition of another state is taken, or the '
                 'same state is asked again and again'),
+    'O6-min': ('a common-ancestor test passes here for the pair (state of the active chain at depth m, target ancestor at depth q), but the states one level below on both sides '
+               '(depth m-1 and q-1) have not been compared and found different on this path: a lower common ancestor may exist, so more states than necessary would be exited '
+               'and re-entered (the tested common state is not the innermost one)'),
+    'O6-cover': ('a state of the active chain is exited before any common-ancestor test has passed, i.e. it is given up as a candidate, but it has not been compared with every '
+                 'ancestor of the target (slots 0..frontier), or the target\'s ancestor path was not collected up to the outermost state: the common ancestor can be missed, and '
+                 'the climb then exits states above it (up to and including the outermost state) and never finds a match'),
     'O6-lca': ('where the entry-path routine returns, the exits made and the entry index do not meet at one tested common state: it must have compared a state of the active '
                'chain at depth m with an ancestor of the target at depth q (identity/equality test passed on this path), have exited exactly the m states below it, and '
                'return q-1 so that entry starts just below it (for source == target the pair of parents is the common state: exit and re-enter the source)'),
@@ -110,7 +116,7 @@ def content_analysis(model, entry_name, cursor_at_entry):
 def record_content_obligations(run, model, entry_name, cursor_at_entry=False, rule='HSM-CONTENT', kinds=None):
     """slot k of the path buffer holds the k-th ancestor of the target whenever it is used for entry (ghost frontier K, ghost depths d)"""
     ca, res = content_analysis(model, entry_name, cursor_at_entry)
-    counts = {'O4-content': 0, 'O5-content': 0, 'O6-exit': 0, 'O6-lca': 0, 'O7-noraise': 0, 'O8-offer': 0, 'O9-init': 0}
+    counts = {'O4-content': 0, 'O5-content': 0, 'O6-exit': 0, 'O6-lca': 0, 'O7-noraise': 0, 'O8-offer': 0, 'O9-init': 0, 'O6-min': 0, 'O6-cover': 0}
     for o in res:
         if o['kind'] not in counts or (kinds is not None and o['kind'] not in kinds):
             continue
